@@ -43,7 +43,12 @@ def run(res, args):
             k = len(s) if mode == "one" else 1 if mode == "bytes" else rng.randint(1, 40)
             chunks.append(s[i:i + k])
             i += k
-        script = ";".join("d:" + c.hex() for c in chunks) or "-"
+        steps = ["d:" + c.hex() for c in chunks]
+        if steps and rng.random() < 0.4:
+            # a reader may hand over its last bytes together with io.EOF in one call
+            steps[-1] = "de:" + chunks[-1].hex()
+            res.count("last chunk delivered together with EOF")
+        script = ";".join(steps) or "-"
         nsinks = rng.randint(1, 4)
         sinks = ",".join(rng.choice(["0", "1", "8", "0s", "1s", "nil"]) for _ in range(nsinks))
         if all(x == "nil" for x in sinks.split(",")):
